@@ -294,6 +294,7 @@ def check(ctx):
         from . import kinds
 
         totals["reset-less-registers"] = totals.get("reset-less-registers", 0) + kinds.register_wire_discipline(ctx, "C23", comp, cls)
+        totals["driven"] = totals.get("driven", 0) + kinds.read_locals_driven(ctx, "C23", comp, cls)
         for k, ex in enumerate(comp.configs):
             cn = cfg_name(ex)
             totals["shape"] += shapes_rule(ctx, comp, ex, cls, cn)
@@ -306,14 +307,28 @@ def check(ctx):
                 ctx.check(nt >= 1, "C23.transparency-membership", comp.site, f"{cls}.transparent_for", found=f"{nt} membership test(s) `write_port in read_port.transparent_for`",
                           required="this memory decides its same-cycle bypass per (read port, write port) by membership in transparent_for")
             totals["init"] += init_rule(ctx, comp, ex, cls, cn)
+            from . import c23z
+
+            totals["timing"] = totals.get("timing", 0) + c23z.timing(ctx, comp, ex, cls, cn)
+            from . import c23w
+
+            totals["submodule-loops"] = totals.get("submodule-loops", 0) + c23w.submodule_loops(ctx, ex, cls, cn)
+            totals["decoding"] = totals.get("decoding", 0) + c23w.ilvt_decoding(ctx, ex, cls, cn)
+            totals["coding"] = totals.get("coding", 0) + c23w.coding_tables(ctx, ex, cls, cn)
             if cls == "MultiportILVTMemory":
                 from . import c23y
 
                 totals["ilvt-width"] = totals.get("ilvt-width", 0) + c23y.ilvt_entry_width(ctx, ex)
             if k == 0:
                 totals["gran"] += gran_rule(ctx, comp, ex, cls, cn)
+    from . import c23w as _w
+
+    totals["ports"] = _w.ports(ctx)
     for k, v in totals.items():
         ctx.analysed[f"C23:{k}"] = v
+    ctx.floor("C23", "timing obligations", totals.get("timing", 0), 60, REL)
+    ctx.floor("C23", "one-hot coding tables", totals.get("coding", 0), 8, REL)
+    ctx.floor("C23", "live-value table decodings", totals.get("decoding", 0), 2, REL)
     ctx.floor("C23", "delay registers with a port role", totals["shape"], 12, REL)
     ctx.floor("C23", "port index agreements", totals["index"], 10, REL)
     ctx.floor("C23", "skip-own-index maps", totals["skip"], 2, REL)
@@ -349,4 +364,30 @@ MUTANTS = [
         self._frozen = True
 
         write_xors"""),
+    # timing coherence (c23z) and coding (c23w)
+    ("xor-inner-write-enable-unregistered", REL, "                m.d.sync += [\n                    physical_write_port.en.eq(write_port.en),\n                    physical_write_port.addr.eq(write_port.addr),\n                ]", "                m.d.comb += physical_write_port.en.eq(write_port.en)\n                m.d.sync += physical_write_port.addr.eq(write_port.addr)"),
+    ("xor-second-stage-bypass-takes-fresh-data", REL, "                    write_data_bypass,\n                    port.data,", "                    write_xor,\n                    port.data,"),
+    ("xor-bypass-arms-swapped", REL, "                    write_data_bypass,\n                    port.data,", "                    port.data,\n                    write_data_bypass,"),
+    ("xor-second-stage-bypass-removed", REL, "                if write_port in self.read_ports[idx].transparent_for:\n                    read_xors[idx] ^= Mux(\n                        (read_addr_bypass == write_regs_addr[index]) & r_write_port.en,\n                        write_xor,\n                        double_stage_bypass,\n                    )\n                else:\n                    read_xors[idx] ^= double_stage_bypass", "                if write_port in self.read_ports[idx].transparent_for:\n                    read_xors[idx] ^= Mux(\n                        (read_addr_bypass == write_regs_addr[index]) & r_write_port.en,\n                        write_xor,\n                        port.data,\n                    )\n                else:\n                    read_xors[idx] ^= port.data"),
+    ("xor-transparency-inverted", REL, "                if write_port in self.read_ports[idx].transparent_for:\n                    read_xors[idx] ^= Mux(", "                if write_port not in self.read_ports[idx].transparent_for:\n                    read_xors[idx] ^= Mux("),
+    ("xor-read-address-registered", REL, "m.d.comb += [port.addr.eq(self.read_ports[idx].addr), port.en.eq(self.read_ports[idx].en)]", "m.d.sync += [port.addr.eq(self.read_ports[idx].addr), port.en.eq(self.read_ports[idx].en)]"),
+    ("xor-hold-register-combinational", REL, "            m.d.sync += sync_data.eq(port.data)\n            m.d.comb += [port.data.eq(Mux(read_en_bypass[index]", "            m.d.comb += sync_data.eq(port.data)\n            m.d.comb += [port.data.eq(Mux(read_en_bypass[index]"),
+    ("xor-accumulator-from-one", REL, "read_xors = [Value.cast(0) for _ in self.read_ports]", "read_xors = [Value.cast(1) for _ in self.read_ports]"),
+    ("xor-feedback-read-disabled", REL, "m.d.comb += [physical_read_port.en.eq(1), physical_read_port.addr.eq(self.write_ports[idx].addr)]", "m.d.comb += [physical_read_port.en.eq(0), physical_read_port.addr.eq(self.write_ports[idx].addr)]"),
+    ("xor-feedback-data-fewer-memories", REL, "            for i in range(len(self.write_ports) - 1):\n                mem_name = f\"memory_{index}_{i}\"\n                mem = m.submodules[mem_name]", "            for i in range(len(self.write_ports) - 2):\n                mem_name = f\"memory_{index}_{i}\"\n                mem = m.submodules[mem_name]"),
+    ("ilvt-table-written-a-cycle-late", REL, "            m.d.comb += [\n                write_port.addr.eq(self.write_ports[index].addr),\n                write_port.en.eq(self.write_ports[index].en.any()),", "            m.d.sync += [\n                write_port.addr.eq(self.write_ports[index].addr),\n                write_port.en.eq(self.write_ports[index].en.any()),"),
+    ("ilvt-bank-data-registered", REL, "                        m.d.comb += [bank_data.eq(m.submodules[f\"bank_{value}\"].read_ports[index].data)]", "                        m.d.sync += [bank_data.eq(m.submodules[f\"bank_{value}\"].read_ports[index].data)]"),
+    ("ilvt-bypass-without-enable", REL, "((write_addr_bypass[idx] == read_addr_bypass) & write_en_bypass[idx], write_data_bypass[idx])", "((write_addr_bypass[idx] == read_addr_bypass), write_data_bypass[idx])"),
+    ("ilvt-encoder-for-binary-table", REL, "            if self.memory_type == OneHotCodedILVT:\n                encoder_name", "            if self.memory_type != OneHotCodedILVT:\n                encoder_name"),
+    ("ilvt-all-writes-transparent", REL, "                for idx, write_port in enumerate(self.write_ports)\n                if write_port in read_port.transparent_for\n            ]", "                for idx, write_port in enumerate(self.write_ports)\n            ]"),
+    ("multiread-transparency-inverted", REL, "[physical_write_port] if physical_write_port and write_port in port.transparent_for else []", "[physical_write_port] if physical_write_port and write_port not in port.transparent_for else []"),
+    ("multiread-write-registered", REL, "                m.d.comb += [\n                    physical_write_port.addr.eq(write_port.addr),", "                m.d.sync += [\n                    physical_write_port.addr.eq(write_port.addr),"),
+    ("onehot-negation-dropped-in-write", REL, "~(m.submodules[f\"bank_{i}\"].read_ports[idx - 1].data[index - 1])", "(m.submodules[f\"bank_{i}\"].read_ports[idx - 1].data[index - 1])"),
+    ("onehot-negation-dropped-in-read", REL, "(~(bypassed_data[index][i][idx - 1]) if i < idx else bypassed_data[index][i + 1][idx])", "((bypassed_data[index][i][idx - 1]) if i < idx else bypassed_data[index][i + 1][idx])"),
+    ("onehot-live-test-negated", REL, "Cat(*exclusive_bits[idx]) == bypassed_data[index][idx]", "Cat(*exclusive_bits[idx]) != bypassed_data[index][idx]"),
+    ("onehot-feedback-port-off-by-one", REL, "            idx = index + first_feedback_port\n", "            idx = index + first_feedback_port - 1\n"),
+    ("onehot-bank-vectors-too-narrow", REL, "                shape=len(self.write_ports) - 1,\n", "                shape=len(self.write_ports) - 2,\n"),
+    ("onehot-real-read-ports-unwired", REL, "                m.d.comb += [\n                    bank_read_ports[idx].en.eq(self.read_ports[idx].en),\n                    bank_read_ports[idx].addr.eq(self.read_ports[idx].addr),\n                ]\n", "                pass\n"),
+    ("read-port-not-registered", REL, "        memory.read_ports.append(self)\n", "        pass\n"),
+    ("read-enable-defaults-to-zero", REL, "        self.en = Signal(init=1)\n", "        self.en = Signal()\n"),
 ]
